@@ -188,7 +188,7 @@ pub fn observe(mods: &[Module], record: bool) -> (Value, Vec<String>) {
                 Some(x) => probes[x]["codes"].as_array_mut().unwrap().push(json!(d.code)),
                 None => {
                     let imp = r.import_lines[i].iter().position(|l| *l == d.line);
-                    other.push(json!({"code": d.code, "line": d.line, "import": imp.map(|x| x + 1)}));
+                    other.push(json!({"code": d.code, "line": d.line, "import": imp.map(|x| x + 1).unwrap_or(0)}));
                 }
             }
         }
